@@ -46,6 +46,16 @@ Program genC16(Rand& R, int tier)
     std::vector<int> f0 = mixedForests(G, d0, true);
     std::vector<int> f1 = mixedForests(G, d1, false);
     std::vector<int> all = f0; all.insert(all.end(), f1.begin(), f1.end());
+    // a twin of one multi-terminal forest of the first domain: same kind, later given another variable
+    // order, so that the *only* mismatch of a call is the order (operands vs operands, operands vs result)
+    int base = -1, twin = -1;
+    if (R.chance(45)) {
+        base = f0[R.below(2)];                  // the boolean or the integer MT set forest
+        FSpec T = G.P.forests[size_t(base)];
+        T.reorder = int(R.below(8)); T.swap = 0;
+        twin = G.addForest(T);
+    }
+    bool twinReordered = false;
     for (int i = 0; i < 4; i++) G.genFunction(i, f0[R.below(uint32_t(f0.size()))], 10);
     for (int i = 4; i < 6; i++) G.genFunction(i, f1[R.below(uint32_t(f1.size()))], 8);
     validWork(G, f0, R.range(2, 8));
@@ -55,6 +65,37 @@ Program genC16(Rand& R, int tier)
         int a = G.pickLive(), b = G.pickLive();
         if (a < 0 || b < 0) { G.genFunction(G.freeSlot(14), all[R.below(uint32_t(all.size()))], 8); continue; }
         const std::string op = BINOPS[R.below(uint32_t(BINOPS.size()))];
+        if (twin >= 0 && R.chance(40)) {
+            const int K = int(G.P.domains[size_t(d0)].size());
+            if (!twinReordered || R.chance(25)) {
+                std::vector<int> perm;
+                for (int v = 1; v <= K; v++) perm.push_back(v);
+                for (int i = K; i > 1; i--) std::swap(perm[size_t(i - 1)], perm[R.below(uint32_t(i))]);
+                bool ident = true;
+                for (int v = 1; v <= K; v++) if (perm[size_t(v - 1)] != v) ident = false;
+                if (ident && K >= 2) std::swap(perm[0], perm[1]);
+                Step s{"reorder", Gen::num(twin)};
+                for (int v : perm) s.push_back(Gen::num(v));
+                G.emit(s);
+                twinReordered = true;
+            }
+            int x = G.freeSlot(14); G.genFunction(x, base, 8);
+            int y = G.freeSlot(14); G.genFunction(y, twin, 8);
+            int x2 = G.pickLive(base), y2 = G.pickLive(twin);
+            const bool isB = G.P.forests[size_t(base)].range == 'B';
+            static const std::vector<std::string> bo = {"UNION", "INTERSECTION", "DIFFERENCE"}, io = {"PLUS", "MINUS", "MULTIPLY", "MAXIMUM", "MINIMUM"};
+            const std::string oo = isB ? bo[R.below(3)] : io[R.below(5)];
+            switch (R.below(4)) {
+                case 0: G.emit({"misuse", "order", oo, Gen::num(x), Gen::num(y), Gen::num(R.chance(50) ? base : twin)}); break;
+                case 1: G.emit({"misuse", "order", oo, Gen::num(x), Gen::num(x2), Gen::num(twin)}); break;
+                case 2: G.emit({"misuse", "order", oo, Gen::num(y), Gen::num(y2), Gen::num(base)}); break;
+                default: G.emit({"misuse", "orderun", isB && R.chance(50) ? "COMPLEMENT" : "COPY", Gen::num(R.chance(50) ? x : y), Gen::num(R.chance(50) ? base : twin)}); break;
+            }
+            // valid work inside the reordered forest as well
+            if (R.chance(50)) G.emitOp(isB ? bo : io, {twin});
+            validWork(G, f0, R.range(1, 3));
+            continue;
+        }
         if (k < 30) G.emit({"misuse", "binop", op, Gen::num(a), Gen::num(b), Gen::num(all[R.below(uint32_t(all.size()))])});
         else if (k < 40) G.emit({"misuse", "unop", R.chance(50) ? "COMPLEMENT" : (R.chance(50) ? "DIST_INC" : "COPY"), Gen::num(a), Gen::num(all[R.below(uint32_t(all.size()))])});
         else if (k < 52) {
